@@ -508,6 +508,26 @@ def evaluate_fault(case, base, k, kind, ctx, control_cache, inner="first"):
         ctx.violation("retry_args", f"{where}: {detail}", stored, sig="retry_args:" + ",".join(bad))
         return
 
+    # only THAT fit is re-run: every other fit of the run is made exactly as in the un-faulted run
+    if len(h.calls) == F + 1:
+        for j in range(F):
+            if j == k - 1:
+                continue
+            other = h.calls[j if j < k else j + 1]
+            ref_call = calls0[j]
+            diff = [] if "unbindable" in other else _diff_fields(ref_call, other)
+            if "unbindable" not in other and other["normalize_weights"] != ref_call["normalize_weights"]:
+                diff.append("normalize_weights")
+            if diff:
+                ctx.violation(
+                    "other_fit_changed",
+                    f"{where}: fit {j + 1} of the run (not the failed one) differs from the un-faulted run in {diff} "
+                    f"(normalize_weights {other.get('normalize_weights')!r} vs {ref_call['normalize_weights']!r})",
+                    stored,
+                    sig="other_fit_changed:" + ",".join(diff),
+                )
+                return
+
     why = compare_structure(run0.tables, run.tables)
     if why:
         ctx.violation("tables_structure", f"{where}: {why}", stored, sig="tables_structure")
